@@ -7,6 +7,7 @@ package sx
 import (
 	"fmt"
 	"os"
+	"sort"
 )
 
 type endKind int
@@ -82,6 +83,9 @@ type PathStats struct {
 	Unsupported    map[string]int
 	BudgetOverruns int
 	PathCapHit     bool
+	DomDecided     int
+	DomChecked     int
+	DomDisagree    int
 	Cuts           map[string]int
 }
 
@@ -105,6 +109,131 @@ func (in *Interp) resetPath(p pendingPath) {
 	in.assumedKnown = in.assumedKnown[:0]
 	in.callDepth = 0
 	in.timeCounter = 0
+	in.dom = map[int]*byteDom{}
+	in.multi = map[int]bool{}
+}
+
+// crossCheckDom re-decides a domain decision with the solver.
+func (in *Interp) crossCheckDom(c *Term, feasT, feasF bool) {
+	in.syncSolver()
+	in.solver.SetTimeout(in.feasTimeoutMs)
+	rT := in.solver.Check(c)
+	rF := in.solver.Check(in.tt.Not(c))
+	in.stats.DomChecked++
+	if (rT == Sat) != feasT && rT != Unknown || (rF == Sat) != feasF && rF != Unknown {
+		in.stats.DomDisagree++
+		in.inconclusive("byte-domain propagation disagrees with the solver on " + c.String())
+	}
+}
+
+// ---- byte-domain propagation ----
+//
+// Path conditions are dominated by literals over a single input byte. For a
+// variable x of width <= 8 that so far occurs only in single-variable
+// literals, the set of values consistent with the path condition is kept
+// exactly (a 256-bit set), and a new condition over x alone is decided by
+// evaluating it on that set - an exact finite-domain decision, no solver
+// round trip. As soon as x occurs in a literal with another variable it is
+// marked entangled and the solver decides. A sample of the domain decisions
+// is re-decided by the solver (DomChecked / DomDisagree in the statistics).
+
+type byteDom [4]uint64
+
+func (d *byteDom) has(v uint64) bool { return d[v>>6]&(1<<(v&63)) != 0 }
+func (d *byteDom) set(v uint64)      { d[v>>6] |= 1 << (v & 63) }
+func (d *byteDom) empty() bool       { return d[0]|d[1]|d[2]|d[3] == 0 }
+func (d *byteDom) first() uint64 {
+	for v := uint64(0); v < 256; v++ {
+		if d.has(v) {
+			return v
+		}
+	}
+	return 0
+}
+
+func fullDom(w uint8) byteDom {
+	var d byteDom
+	n := uint64(2)
+	if w > 0 {
+		n = 1 << w
+	}
+	for v := uint64(0); v < n; v++ {
+		d.set(v)
+	}
+	return d
+}
+
+func (in *Interp) domOf(x *Term) byteDom {
+	if d, ok := in.dom[x.id]; ok {
+		return *d
+	}
+	return fullDom(x.w)
+}
+
+// splitDom partitions dom(x) by the truth value of c (which depends on x only).
+func (in *Interp) splitDom(c, x *Term) (t, f byteDom) {
+	d := in.domOf(x)
+	n := uint64(2)
+	if x.w > 0 {
+		n = 1 << x.w
+	}
+	for v := uint64(0); v < n; v++ {
+		if !d.has(v) {
+			continue
+		}
+		in.epoch++
+		if in.tt.eval1(c, v, in.epoch) != 0 {
+			t.set(v)
+		} else {
+			f.set(v)
+		}
+	}
+	return
+}
+
+// splittable reports whether every leaf of the and/or tree c depends on at
+// most one variable of width <= 8.
+func (in *Interp) splittable(c *Term) bool {
+	if c.op == OpAnd || c.op == OpOr {
+		return in.splittable(c.a) && in.splittable(c.b)
+	}
+	if c.op == OpNot && (c.a.op == OpAnd || c.a.op == OpOr) {
+		return in.splittable(c.a)
+	}
+	x, n := c.freeVar()
+	return n == 0 || (n == 1 && x.w <= 8)
+}
+
+// domVar returns the variable of c if c is decidable by domain enumeration.
+func (in *Interp) domVar(c *Term) *Term {
+	if in.noDom {
+		return nil
+	}
+	x, n := c.freeVar()
+	if n == 1 && x.w <= 8 {
+		return x
+	}
+	return nil
+}
+
+// modelWith returns a model equal to m except that x takes a value from d
+// (m itself if it already does). nil stays nil.
+func (in *Interp) modelWith(m Model, x *Term, d *byteDom) Model {
+	if m == nil {
+		return nil
+	}
+	if cur, ok := m[x.id]; ok && d.has(cur&maskb(x.w)) {
+		return m
+	}
+	if _, ok := m[x.id]; !ok && d.has(0) {
+		return m
+	}
+	m2 := make(Model, len(m)+1)
+	for k, v := range m {
+		m2[k] = v
+	}
+	m2[x.id] = d.first()
+	return m2
 }
 
 func (in *Interp) replaying() bool { return len(in.trace) < len(in.prefix) }
@@ -112,6 +241,21 @@ func (in *Interp) replaying() bool { return len(in.trace) < len(in.prefix) }
 func (in *Interp) addPC(lit *Term) {
 	in.pc = append(in.pc, lit)
 	in.pcSet[lit.id] = true
+	if in.noDom {
+		return
+	}
+	x, n := lit.freeVar()
+	switch {
+	case n == 1 && x.w <= 8:
+		t, _ := in.splitDom(lit, x)
+		in.dom[x.id] = &t
+	case n >= 1:
+		var vars []*Term
+		lit.collectVars(map[int]bool{}, &vars)
+		for _, v := range vars {
+			in.multi[v.id] = true
+		}
+	}
 }
 
 // syncSolver makes the solver's assertion stack equal to in.pc.
@@ -165,6 +309,21 @@ func (in *Interp) Decide(c *Term) bool {
 	if v, ok := in.known(c); ok {
 		return v
 	}
+	// A conjunction / disjunction of single-byte literals over several bytes
+	// (string comparisons) is decided literal by literal, so that no byte
+	// becomes entangled with another one.
+	if !in.noDom {
+		if _, n := c.freeVar(); n >= 2 {
+			switch {
+			case c.op == OpAnd && in.splittable(c):
+				return in.Decide(c.a) && in.Decide(c.b)
+			case c.op == OpOr && in.splittable(c):
+				return in.Decide(c.a) || in.Decide(c.b)
+			case c.op == OpNot && (c.a.op == OpAnd || c.a.op == OpOr) && in.splittable(c.a):
+				return !in.Decide(c.a)
+			}
+		}
+	}
 	pos := len(in.trace)
 	if pos < len(in.prefix) {
 		b := in.prefix[pos].v != 0
@@ -177,18 +336,57 @@ func (in *Interp) Decide(c *Term) bool {
 		return b
 	}
 	in.stats.Forks++
-	in.syncSolver()
 	notc := in.tt.Not(c)
 	feasT, feasF := false, false
 	var mT, mF Model
-	if in.model != nil {
-		if in.evalBool(c, in.model) {
-			feasT, mT = true, in.model
+	knownT, knownF := false, false // side decided without the solver
+	if x := in.domVar(c); x != nil {
+		dT, dF := in.splitDom(c, x)
+		if !in.multi[x.id] {
+			feasT, feasF = !dT.empty(), !dF.empty()
+			knownT, knownF = true, true
+			if feasT {
+				mT = in.modelWith(in.model, x, &dT)
+			}
+			if feasF {
+				mF = in.modelWith(in.model, x, &dF)
+			}
+			in.stats.DomDecided++
+			if in.domCheckEvery > 0 && in.stats.DomDecided%in.domCheckEvery == 0 {
+				in.crossCheckDom(c, feasT, feasF)
+			}
 		} else {
-			feasF, mF = true, in.model
+			// over-approximation: an empty side is certainly infeasible
+			if dT.empty() {
+				knownT = true
+			}
+			if dF.empty() {
+				knownF = true
+			}
 		}
 	}
-	if !feasT {
+	if !(knownT && knownF) {
+		in.syncSolver()
+	}
+	if in.model != nil && !(knownT && knownF) {
+		if in.evalBool(c, in.model) {
+			if !knownT {
+				feasT, mT, knownT = true, in.model, true
+			}
+		} else {
+			if !knownF {
+				feasF, mF, knownF = true, in.model, true
+			}
+		}
+	}
+	if !knownT && knownF && !feasF {
+		// the path condition is satisfiable, so the other side is feasible
+		feasT, knownT = true, true
+	}
+	if !knownF && knownT && !feasT {
+		feasF, knownF = true, true
+	}
+	if !knownT {
 		in.solver.SetTimeout(in.feasTimeoutMs)
 		r, m := in.solver.CheckWithModel(c)
 		in.stats.FeasQ++
@@ -197,7 +395,7 @@ func (in *Interp) Decide(c *Term) bool {
 		}
 		feasT, mT = r != Unsat, m
 	}
-	if !feasF {
+	if !knownF {
 		in.solver.SetTimeout(in.feasTimeoutMs)
 		r, m := in.solver.CheckWithModel(notc)
 		in.stats.FeasQ++
@@ -286,6 +484,64 @@ func (in *Interp) Concretize(t *Term) uint64 {
 		excl = e.excl
 	}
 	in.stats.Forks++
+	if x := in.domVar(t); x != nil && !in.multi[x.id] {
+		// exact enumeration of the reachable values over dom(x)
+		d := in.domOf(x)
+		pre := map[uint64]uint64{}
+		var vals []uint64
+		for v := uint64(0); v < 256; v++ {
+			if !d.has(v) {
+				continue
+			}
+			in.epoch++
+			r := in.tt.eval1(t, v, in.epoch)
+			if _, ok := pre[r]; !ok {
+				pre[r] = v
+				vals = append(vals, r)
+			}
+		}
+		sort.Slice(vals, func(i, j int) bool { return vals[i] < vals[j] })
+		isEx := func(list []uint64, v uint64) bool {
+			for _, e := range list {
+				if e == v {
+					return true
+				}
+			}
+			return false
+		}
+		if !haveVal {
+			found := false
+			for _, r := range vals {
+				if !isEx(excl, r) {
+					val, found = r, true
+					break
+				}
+			}
+			if !found {
+				panic(pathEnd{endInfeasible, "no value left"})
+			}
+		}
+		excl2 := append(append([]uint64{}, excl...), val)
+		mk := func(r uint64) Model {
+			var one byteDom
+			one.set(pre[r])
+			return in.modelWith(in.model, x, &one)
+		}
+		for _, r := range vals {
+			if !isEx(excl2, r) {
+				pp := in.tracePrefix(pos + 1)
+				pp[pos] = pfx{v: int64(r), ex: true, excl: excl2}
+				in.pending = append(in.pending, pendingPath{pp, mk(r)})
+				break
+			}
+		}
+		in.stats.DomDecided++
+		lit := in.tt.Eq(t, in.tt.BV(w, val))
+		in.trace = append(in.trace, decisionRec{pfx{v: int64(val)}, lit})
+		in.model = mk(val)
+		in.addPC(lit)
+		return val
+	}
 	if !haveVal {
 		m := in.currentModel()
 		if m == nil {
@@ -336,6 +592,13 @@ func (in *Interp) Assume(c *Term) {
 	if !in.replaying() {
 		if in.model != nil && in.evalBool(c, in.model) {
 			// feasible, model still valid
+		} else if x := in.domVar(c); x != nil && !in.multi[x.id] {
+			dT, _ := in.splitDom(c, x)
+			if dT.empty() {
+				panic(pathEnd{endInfeasible, "assume unsatisfiable"})
+			}
+			in.model = in.modelWith(in.model, x, &dT)
+			in.stats.DomDecided++
 		} else {
 			in.syncSolver()
 			in.solver.SetTimeout(in.feasTimeoutMs)
@@ -506,7 +769,10 @@ func (in *Interp) renderConc(v Val, m Model, memo map[int]uint64) string {
 
 // Explore runs entry on all feasible paths.
 func (in *Interp) Explore(run func()) {
-	in.pending = []pendingPath{{nil, Model{}}}
+	in.pending = []pendingPath{{in.startPrefix, Model{}}}
+	if in.startPrefix != nil {
+		in.pending[0].model = nil
+	}
 	progress := os.Getenv("GOSYMX_PROGRESS") != ""
 	for len(in.pending) > 0 {
 		if in.maxPaths > 0 && in.stats.Paths >= in.maxPaths {
@@ -516,9 +782,24 @@ func (in *Interp) Explore(run func()) {
 		}
 		p := in.pending[len(in.pending)-1]
 		in.pending = in.pending[:len(in.pending)-1]
+		if in.solver.Queries-in.lastReset > 4000 {
+			in.solver.Reset()
+			in.lastReset = in.solver.Queries
+		}
 		in.resetPath(p)
 		in.runPath(run)
 		in.stats.Steps += in.steps
+		if in.sharing != nil && len(in.pending) >= 2 && in.sharing.Idle() {
+			n := len(in.pending) / 2
+			var items []Item
+			for _, pp := range in.pending[:n] {
+				it := in.curItem
+				it.Start = &StartPrefix{p: pp.prefix}
+				items = append(items, it)
+			}
+			in.pending = append([]pendingPath{}, in.pending[n:]...)
+			in.sharing.Donate(items)
+		}
 		if progress {
 			fmt.Fprintf(os.Stderr, "path %d steps=%d forks=%d pending=%d infeasible=%d trace=%d pc=%d terms=%d\n", in.stats.Paths, in.steps, in.stats.Forks, len(in.pending), in.stats.Infeasible, len(in.trace), len(in.pc), in.tt.nextID)
 			if len(in.trace) > 0 && in.trace[len(in.trace)-1].lit != nil {
